@@ -257,7 +257,9 @@ def judge(chk, fmt, c, t, r, api, cfgname):
                     ("2L=FSf+photonic+2L(a)", V["amu2L"], V["amu2LFSfapprox"] + V["amu2LChipmPhotonic"] + V["amu2LChi0Photonic"] + V["amu2LaSferm"] + V["amu2LaCha"],
                      abs(V["amu2LFSfapprox"]) + abs(V["amu2LChipmPhotonic"]) + abs(V["amu2LChi0Photonic"]) + abs(V["amu2LaSferm"]) + abs(V["amu2LaCha"]))]
         else:
-            adds = [("2L=B+F", V["amu2L"], V["amu2L_B"] + V["amu2L_F"], abs(V["amu2L_B"]) + abs(V["amu2L_F"]))]
+            adds = [("2L=B+F", V["amu2L"], V["amu2L_B"] + V["amu2L_F"], abs(V["amu2L_B"]) + abs(V["amu2L_F"])),
+                    ("B=EWadd+nonYuk+Yuk", V["amu2L_B"], V["amu2L_B_EWadd"] + V["amu2L_B_nonYuk"] + V["amu2L_B_Yuk"], abs(V["amu2L_B_EWadd"]) + abs(V["amu2L_B_nonYuk"]) + abs(V["amu2L_B_Yuk"])),
+                    ("F=neutral+charged", V["amu2L_F"], V["amu2L_F_neutral"] + V["amu2L_F_charged"], abs(V["amu2L_F_neutral"]) + abs(V["amu2L_F_charged"]))]
         for name, tot, s, sc in adds:
             e = abs(tot - s) / sc if sc else 0.0
             chk.add_cell(cellbase + "|additivity:" + name, 1, e / 1e-14)
